@@ -78,7 +78,7 @@ def run_point(pt):
     backend, k, mode, caught, auto = pt[:5]
     d = tempfile.mkdtemp(prefix="pv-c18-")
     try:
-        cfg = {"backend": backend, "k": k, "mode": mode, "caught": caught, "autoprove": auto, "prehook": len(pt) > 5 and pt[5]}
+        cfg = {"backend": backend, "k": k, "mode": mode, "caught": caught, "autoprove": auto, "prehook": len(pt) > 5 and pt[5], "operation": pt[6] if len(pt) > 6 else None}
         r = subprocess.run([common.PY, SCRIPT, json.dumps(cfg)], cwd=d, env=child_env(backend), capture_output=True,
                            text=True, start_new_session=True, timeout=120)
         status = r.returncode
@@ -113,6 +113,8 @@ def judge(res):
     base = {"mode": mode, "caught": caught, "autoprove": auto}
     if len(res["pt"]) > 5 and res["pt"][5]:
         base["prehook"] = True
+    if len(res["pt"]) > 6 and res["pt"][6]:
+        base["operation"] = res["pt"][6]
     if auto and success:
         if res["calls"] != 1:
             out.append((dict(base, klass="successful-run-not-proved" if res["calls"] == 0 else "proved-more-than-once"),
@@ -144,6 +146,10 @@ def points(thorough, seed):
             if not thorough and backend in ("zkifbellman", "nobackend") and caught != "none":
                 continue        # quick: these two backends share all code with zkinterface / have no artefacts
             pts.append((backend, k, mode, caught, auto))
+    # automatic proving off and a separate step requested (runtime.operation set)
+    for backend in BACKENDS if thorough else ("snarkjs", "zkinterface", "nobackend"):
+        for k, mode, opn in itertools.product((0, 3), ("fall", "exit(0)", "exit(1)", "ValueError"), ("prove", "keygen", "verify")):
+            pts.append((backend, k, mode, "none", False, False, opn))
     # an exception hook already installed by the environment when pysnark is imported
     for backend in ("snarkjs", "qaptools") if thorough else ("snarkjs",):
         for k, mode, caught in itertools.product((0, 2, 3), MODES, CAUGHT if thorough else ("none", "exception")):
@@ -163,7 +169,7 @@ def run(ctx):
             shapes.add((res["pt"][0], res["status"], res["calls"], len(res["present"])))
             nprove += res["calls"]
         for sig, text in judge(res):
-            ctx.violation(sig, {"pt": list(res["pt"])}, "backend=%s stop-before-statement=%d mode=%s caught=%s autoprove=%s%s: %s" % (tuple(res["pt"][:5]) + (" (exception hook pre-installed)" if len(res["pt"]) > 5 and res["pt"][5] else "", text)))
+            ctx.violation(sig, {"pt": list(res["pt"])}, "backend=%s stop-before-statement=%d mode=%s caught=%s autoprove=%s%s: %s" % (tuple(res["pt"][:5]) + ((" (exception hook pre-installed)" if len(res["pt"]) > 5 and res["pt"][5] else "") + ((" (runtime.operation=%s)" % res["pt"][6]) if len(res["pt"]) > 6 and res["pt"][6] else ""), text)))
     from .. import e1
     e1.dedupe_violations(ctx)
     ctx.cov["states"] = len(shapes)
